@@ -198,17 +198,19 @@ def _all_cfg_families() -> list:
     if "all" not in _DB:
         _family_info(_CFG_FAMILIES[0])
         db = _DB["db"]
-        _DB["all"] = sorted(f for f in db.devices if "sb31" in list(db.devices[f].revisions.values())[-1])
+        _DB["all"] = sorted(f for f in db.devices if "sb31" in db.devices[f].features(db.devices[f].latest))
     return _DB["all"]
 
 
 def _pins() -> dict:
-    """ROM key numbering per device, frozen at the pinned commit (fixtures/c05/device_constants.json)."""
+    """ROM key numbering per device, frozen at the pinned commit (fixtures/device_constants.json, section sb31)."""
     if "pins" not in _DB:
-        import json
+        from vf import pins
 
-        with open(os.path.join(VERIF_DIR, "fixtures", "c05", "device_constants.json")) as f:
-            _DB["pins"] = json.load(f)["key_wraps_version"]
+        _family_info(_CFG_FAMILIES[0])
+        db = _DB["db"]
+        sect = pins.load("sb31")
+        _DB["pins"] = {f: sect["%s/%s" % (f, db.devices[f].latest)]["key_wraps_version"] for f in db.devices if "%s/%s" % (f, db.devices[f].latest) in sect}
     return _DB["pins"]
 
 
@@ -219,8 +221,7 @@ def _family_info(family: str) -> dict:
 
         _DB["db"] = dbenum.load()
     d = _DB["db"].devices[family]
-    rev = list(d.revisions.values())[-1]
-    return rev.get("sb31", {})
+    return d.features(d.latest).get("sb31", {})
 
 
 def _command_cfg(cmd: dict, wd: str, idx: int, wraps_version: int):
@@ -530,4 +531,7 @@ def _classify(case, o: Oracle, commands, hname) -> None:
 
 def parts(ctx):
     _CTX["work"] = ctx.work
-    return [HypPart("sb31", _case(), run_case, {"quick": 1600, "thorough": 60000})]
+    from vf import pins
+
+    return [HypPart("sb31", _case(), run_case, {"quick": 1600, "thorough": 60000}),
+            pins.part(["sb31"], 30)]  # ROM numbering of the customer key-encryption keys
